@@ -70,9 +70,13 @@ func checkC16RoundTrip(c C16RoundTrip) error {
 	if r.Failed() {
 		return fmt.Errorf("deserialize of freshly serialized data failed: %v (name %d bytes, source %d bytes, ast %d bytes)", r, len(in.Name), len(in.Source), len(in.AST))
 	}
+	// the caller's byte slice is the caller's: overwriting it afterwards must not reach the result
+	for i := range data {
+		data[i] = 0xA5
+	}
 	switch {
 	case out.Name != in.Name:
-		return fmt.Errorf("name differs after round trip: %s vs %s", q(trunc(out.Name)), q(trunc(in.Name)))
+		return fmt.Errorf("name differs after round trip (and after the input bytes were overwritten): %s vs %s", q(trunc(out.Name)), q(trunc(in.Name)))
 	case out.Source != in.Source:
 		return fmt.Errorf("source differs after round trip (len %d vs %d)", len(out.Source), len(in.Source))
 	case out.LastModified != in.LastModified || out.CompileTime != in.CompileTime:
@@ -91,7 +95,7 @@ func trunc(s string) string {
 }
 
 func TestC16RoundTrip(t *testing.T) {
-	r := NewRec(t, "C16", "CompiledTemplate values with arbitrary name/source bytes (empty, binary, invalid UTF-8, lengths at 0/1/255/256/65535/65536/1 MB, thorough 32 MB), arbitrary int64 timestamps (negative, min, max) and arbitrary AST bytes; oracle: Deserialize(Serialize(c)) == c field-wise, and the serialised bytes stay as they are while another template of the same size is serialised; non-trivial = source length >= 256 or non-UTF-8 bytes or extreme timestamps; distinct by value")
+	r := NewRec(t, "C16", "CompiledTemplate values with arbitrary name/source bytes (empty, binary, invalid UTF-8, lengths at 0/1/255/256/65535/65536/1 MB, thorough 32 MB), arbitrary int64 timestamps (negative, min, max) and arbitrary AST bytes; oracle: Deserialize(Serialize(c)) == c field-wise, the serialised bytes stay as they are while another template of the same size is serialised, and the result survives overwriting the input bytes; non-trivial = source length >= 256 or non-UTF-8 bytes or extreme timestamps; distinct by value")
 	defer r.Flush()
 	rapid.Check(t, func(rt *rapid.T) {
 		unit := func(label string) BStr {
@@ -233,7 +237,12 @@ func checkC16Render(c C16RenderCase) error {
 				data, _ = twig.SerializeCompiledTemplate(ct)
 				what = "second engine, AST replaced by garbage"
 			}
-			r := guard(func() (string, error) { return "", eB.LoadFromCompiledData(data) })
+			// the engine is handed a buffer the caller reuses afterwards
+			buf := append([]byte(nil), data...)
+			r := guard(func() (string, error) { return "", eB.LoadFromCompiledData(buf) })
+			for i := range buf {
+				buf[i] = 0
+			}
 			if r.Failed() {
 				return fmt.Errorf("%s: LoadFromCompiledData(%q) failed: %v", what, name, r)
 			}
@@ -368,6 +377,32 @@ func checkC16File(c C16FileCase) error {
 			return fmt.Errorf("third SaveCompiled failed: %v", r)
 		}
 	}
+	// CompileAll of an engine, then of an engine holding changed sources under the same names,
+	// into the same directory: the directory must hold the second state
+	if src2 != src {
+		dir2, err := os.MkdirTemp(workDir(), "c16all-")
+		if err != nil {
+			return fmt.Errorf("harness: %v", err)
+		}
+		defer os.RemoveAll(dir2)
+		for round, set := range []map[string]string{{c.Name: src, "other": "O1{{ x }}"}, {c.Name: src2, "other": "O2{{ x }}"}} {
+			eC := newEngine(set)
+			for n := range set {
+				if r := render(eC, n, map[string]interface{}{"x": "X"}); r.Failed() {
+					return nil
+				}
+			}
+			if r := guard(func() (string, error) { return "", twig.NewCompiledLoader(dir2).CompileAll(eC) }); r.Failed() {
+				return fmt.Errorf("CompileAll (round %d) failed: %v", round+1, r)
+			}
+			for n, want := range set {
+				var got string
+				if r := guard(func() (string, error) { s, err := twig.NewCompiledLoader(dir2).Load(n); got = s; return "", err }); r.Failed() || got != want {
+					return fmt.Errorf("after CompileAll round %d the compiled file of %q holds a source of %d bytes (%v), the engine's template has %d bytes", round+1, n, len(got), r, len(want))
+				}
+			}
+		}
+	}
 	// LoadAll on a fresh engine
 	eB := twig.New()
 	if r := guard(func() (string, error) { return "", twig.NewCompiledLoader(dir).LoadAll(eB) }); r.Failed() {
@@ -381,7 +416,7 @@ func checkC16File(c C16FileCase) error {
 }
 
 func TestC16Files(t *testing.T) {
-	r := NewRec(t, "C16", "templates (text over all bytes + a print + an if, sizes up to 100 KB) saved with CompiledLoader.SaveCompiled and read back with Load / Exists / GetModifiedTime / LoadAll on a fresh engine, rewritten from a different template of the same length and read again by the same loader instance; oracle: identical source and output; non-trivial = source >= 256 bytes or non-ASCII; distinct by (name, source)")
+	r := NewRec(t, "C16", "templates (text over all bytes + a print + an if, sizes up to 100 KB) saved with CompiledLoader.SaveCompiled and read back with Load / Exists / GetModifiedTime / LoadAll on a fresh engine, rewritten from a different template of the same length and read again by the same loader instance, CompileAll run twice with changed sources; oracle: identical source and output; non-trivial = source >= 256 bytes or non-ASCII; distinct by (name, source)")
 	defer r.Flush()
 	rapid.Check(t, func(rt *rapid.T) {
 		text, _ := fixTextBeforeTag(breakDelims(genText(rt, 40)))
